@@ -516,6 +516,8 @@ def main():
     threading.Thread(target=watchdog, daemon=True).start()
 
     kw = dict(scen["executor"])
+    if isinstance(kw.get("cache_directory"), str) and kw["cache_directory"].startswith("@WORK"):
+        kw["cache_directory"] = os.path.join(work, kw["cache_directory"][6:] or "cache")
     exe = executorlib.Executor(**kw)
     futs = {}
     calls = scen["calls"]
